@@ -305,6 +305,22 @@ class Gen:
         for st in (getattr(prog, "segments", None) or []):
             if getattr(st, "pc_def", None) is not None:
                 body.append(Stmt("const", root, d=st.pc_def, expr=("num", st.pc, None)))
+        # unit tests: a `.test` block is not assembled by a build, so it is inert for every oracle that judges bytes; its
+        # statements (.assert with or without a message, .trace with or without arguments) are there for parser and formatter
+        for ti in range(rng.randrange(1, 3) if rng.random() < k.get("p_test", 0.0) else 0):
+            items = []
+            for _ in range(rng.randrange(0, 5)):
+                r = rng.random()
+                if r < 0.4:
+                    items.append(("ins", rng.choice(["lda", "ldx", "ldy", "inx", "dey", "nop", "clc", "sta", "tax"])))
+                elif r < 0.8:
+                    items.append(("assert", rng.randrange(4), rng.choice([None, None, "msg %d" % rng.randrange(100), "a \u00e9 b"])))
+                else:
+                    items.append(("trace", rng.choice([None, 1, 2])))
+            if rng.random() < 0.7:
+                items.append(("ins", "brk"))
+            st = Stmt("testraw", root, name="t%d_%d" % (ti, rng.randrange(1000)), items=items)
+            body.insert(rng.randrange(len(prog.segments) + (1 if prog.has_segments else 0) if prog.has_segments else 0, len(body) + 1), st)
         prog.files["main.asm"] = body
         for fbody in list(prog.files.values()):
             self._separate(fbody)
